@@ -35,6 +35,25 @@ func C07(r *h.Run) {
 	c07NilCompression(r)
 	c07ReceiveAfterFailure(r)
 	c07RepeatedHeaders(r)
+	// what a refused request leaves behind: after compressed requests that are refused in each way
+	// Decompress can fail (corrupt stream; inflates beyond the read limit), overlapping VALID
+	// requests on the same handler are each served with their own message
+	for round := 0; round < r.N(4, 24); round++ {
+		bomb := []byte{255, 'x', 255, 'y'} // run-length pairs: 4 wire bytes, 510 bytes inflated, limit 256
+		bomb2 := []byte{255, 'x', 2, 'y'}
+		corrupt := []byte{3, 'a', 7} // dangling count: fails while it is read
+		triggers := [][][]byte{{corrupt}, {bomb}, {bomb2, corrupt}, {corrupt, corrupt, bomb}}[round%4]
+		probs, wrong, first := decompressorSharingAlgo("rle", triggers, 16, 10)
+		in := map[string]any{"first": []string{"a corrupt compressed request", "a request that inflates beyond the read limit", "one of each", "two corrupt requests and an oversize one"}[round%4] + " (each refused with invalid_argument)", "then": "16 goroutines x 10 valid compressed unary requests on the same handler"}
+		r.Eval("after_refused_compressed", fmt.Sprint(round))
+		r.Sample("after_refused_compressed", map[string]any{"in": in, "calls_with_a_wrong_answer": wrong, "tracker_findings": len(probs)})
+		for _, pr := range probs {
+			r.Fail(h.Failure{Key: "serve/pooled-decompressor-shared", Family: "after_refused_compressed", What: pr, Input: in})
+		}
+		if wrong > 0 {
+			r.Fail(h.Failure{Key: "serve/wrong-message-served", Family: "after_refused_compressed", What: fmt.Sprintf("%d valid request(s) were not answered with the echo of their own message (user code ran on another message, or on none)", wrong), Input: in, Actual: first})
+		}
+	}
 	c07InvalidUTF8JSON(r)
 	for i := 0; i < r.N(700, 9000); i++ {
 		proto := protos[rng.Intn(3)]
